@@ -8,8 +8,11 @@ and its citations / footnotes must be consistent (each [n] has exactly one
 footnote, every footnote is cited, numbering 1..k in order of first citation,
 distinct texts); for UTF-8 names the table must equal the model's rendering."""
 import json
+import os
 import random
 import re
+import shutil
+import subprocess
 
 import refcheck as RC
 import scenario as S
@@ -255,6 +258,83 @@ def run(ctx):
                 else:
                     for pr in check_table(out):
                         res.violations.append(vlib.Violation("table not well-formed: " + pr, inp, observed=out[:600].decode("latin1")))
+        # twelve rows, twelve different witnesses: more than nine footnotes, so that "[10]" has to come after "[9]"
+        ws = S.Scenario()
+        small = ws.add({"kind": "blob", "data": b"s"})
+        bigb = ws.add({"kind": "blob", "data": b"B" * 100000})
+        lnk = ws.add({"kind": "blob", "data": b"target"})
+        t_many = ws.add({"kind": "tree", "entries": [(0o100644, b"m%02d" % i, small) for i in range(40)]})
+        t_leaf = ws.add({"kind": "tree", "entries": [(0o100644, b"c%02d" % i, small) for i in range(25)]})
+        t_count = ws.add({"kind": "tree", "entries": [(0o40000, b"p", t_leaf), (0o40000, b"q", t_leaf)]})
+        t_one = ws.add({"kind": "tree", "entries": [(0o100644, b"x", small)]})
+        t_dirs = ws.add({"kind": "tree", "entries": [(0o40000, b"d%02d" % i, t_one) for i in range(20)]})
+        deep = t_one
+        for i in range(15):
+            deep = ws.add({"kind": "tree", "entries": [(0o40000, b"n", deep)]})
+        t_long = ws.add({"kind": "tree", "entries": [(0o100644, b"L" * 250, small)]})
+        t_big = ws.add({"kind": "tree", "entries": [(0o100644, b"big.bin", bigb)]})
+        t_links = ws.add({"kind": "tree", "entries": [(0o120000, b"l%d" % i, lnk) for i in range(3)]})
+        t_subs = ws.add({"kind": "tree", "entries": [(0o160000, b"s%d" % i, bytes([i + 1]) * 20) for i in range(2)]})
+        tips = []
+        for i, t in enumerate((t_many, t_count, t_dirs, deep, t_long, t_big, t_links, t_subs)):
+            tips.append(ws.add({"kind": "commit", "tree": t, "parents": [], "date": 1500000000 + i, "msg": b"w%d\n" % i}))
+            ws.refs.append((b"refs/heads/w%d" % i, tips[-1]))
+        c_msg = ws.add({"kind": "commit", "tree": t_one, "parents": [], "date": 1500000100, "msg": b"long " * 2000 + b"\n"})
+        c_merge = ws.add({"kind": "commit", "tree": t_one, "parents": tips[:3], "date": 1500000200, "msg": b"merge\n"})
+        tagw = ws.add({"kind": "tag", "target": c_msg, "name": b"annot"})
+        ws.refs += [(b"refs/heads/wmsg", c_msg), (b"refs/heads/wmerge", c_merge), (b"refs/tags/annot", tagw)]
+        ws.compute()
+        worder = ws.enum_gitlike(sorted({x for _, x in ws.refs}, reverse=True))
+        for nsx in ("full", "hash"):
+            rc, out, err, log = eng.run_fake(ws, worder, [], [], extra_args=["-v", "--no-progress", "--names=" + nsx])
+            res.case(("twelve-witnesses", nsx), True)
+            inp = {"scenario": "twelve rows citing twelve different objects", "args": ["-v", "--names=" + nsx]}
+            if rc != 0:
+                res.violations.append(vlib.Violation("run failed: %s" % err[:200].decode("latin1"), inp, expected="exit 0"))
+                continue
+            nfoot = len(re.findall(rb"(?m)^\[\d+\] ", out))
+            if nfoot < 10:
+                res.violations.append(vlib.Violation("the twelve-witness scenario yields fewer than ten footnotes (%d)" % nfoot, inp, nofail=True))
+            for pr in check_table(out):
+                res.violations.append(vlib.Violation("table not well-formed: " + pr, inp, observed=out[-1500:].decode("latin1")))
+        # very long REFERENCE names (legal in packed-refs, listed by for-each-ref in one line of that length): 5 000 ... 200 000 bytes
+        for n in (5000, 65400, 65500, 70000, 200000):
+            sc = S.Scenario()
+            big = sc.add({"kind": "blob", "data": b"H" * 50000})
+            t = sc.add({"kind": "tree", "entries": [(0o100644, b"f", big)]})
+            c = sc.add({"kind": "commit", "tree": t, "parents": []})
+            sc.refs.append((b"refs/heads/main", c))
+            sc.compute()
+            d = os.path.join(eng.scratch, "longref%d" % n)
+            gitdir = sc.materialise(d)
+            longname = b"refs/heads/" + b"/".join([b"c" * 200] * ((n - 11) // 201)) + b"/end"
+            with open(os.path.join(gitdir, "packed-refs"), "ab") as f:
+                f.write(b"# pack-refs with: peeled fully-peeled sorted \n" if os.path.getsize(os.path.join(gitdir, "packed-refs")) == 0 else b"")
+                f.write(sc.oids[c].hex().encode() + b" " + longname + b"\n")
+            chk = subprocess.run(["git", "--git-dir", gitdir, "for-each-ref", "--format=%(refname)"], stdout=subprocess.PIPE, stderr=subprocess.PIPE, env=S.clean_env())
+            if chk.returncode != 0 or longname not in chk.stdout:
+                shutil.rmtree(d, ignore_errors=True)
+                continue       # git itself does not list it: not an input of the property
+            for fmt in (["--json"], ["--json", "--json-version=2"], ["-v"]):
+                rc, out, err = S.run_sizer(ctx["bins"]["sizer"], d, fmt + ["--no-progress"])
+                res.case(("longref", n, tuple(fmt)), True)
+                inp = {"names": "a reference name of %d bytes in packed-refs" % len(longname), "args": fmt}
+                if rc != 0:
+                    res.violations.append(vlib.Violation("run failed on a repository with a reference name of %d bytes: %s" % (len(longname), err[:200].decode("latin1")), inp, expected="exit 0"))
+                    continue
+                if fmt[0] == "--json":
+                    try:
+                        j = json.loads(out.decode("utf-8"))
+                    except Exception as e:
+                        res.violations.append(vlib.Violation("stdout is not valid JSON: %s" % e, inp))
+                        continue
+                    nrefs = j["reference_count"] if len(fmt) == 1 else j["referenceCount"]["value"]
+                    if nrefs != 2:
+                        res.violations.append(vlib.Violation("a reference with a very long name is not counted", inp, expected=2, observed=nrefs))
+                else:
+                    for pr in check_table(out):
+                        res.violations.append(vlib.Violation("table not well-formed: " + pr, inp, observed=out[:600].decode("latin1")))
+            shutil.rmtree(d, ignore_errors=True)
     finally:
         eng.close()
     res.coverage_extra["input_distribution"] = {"cases_with_LF_in_a_name": lf_cases}
